@@ -1,7 +1,10 @@
 // ---------- prelude/core_layouts (R6): prepared key material of poulpy-core/src/layouts/prepared, reduced to shape + dependency ----------
 pub struct GGLWEPrepared<D, BE> { pub data: VmpPMat<D, BE>, pub base2k: Base2K, pub dsize: Dsize }
 pub trait LWEInfos { spec fn s_n(&self) -> u32; spec fn s_base2k(&self) -> Base2K; spec fn s_size(&self) -> usize;
+    // default method of the real trait: TorusPrecision(self.size() as u32 * self.base2k().as_u32())
+    #[verifier::external_body] fn max_k(&self) -> (r: TorusPrecision) ensures r.0 == ((self.s_size() * self.s_base2k().0) as u32) { unimplemented!() }
     fn n(&self) -> (r: Degree) ensures r.0 == self.s_n(); fn base2k(&self) -> (r: Base2K) ensures r == self.s_base2k(); fn size(&self) -> (r: usize) ensures r == self.s_size(); }
+pub open spec fn max_k_of<A: LWEInfos + ?Sized>(a: &A) -> u32 { (a.s_size() * a.s_base2k().0) as u32 }
 pub trait GLWEInfos: LWEInfos { spec fn s_rank(&self) -> u32; fn rank(&self) -> (r: Rank) ensures r.0 == self.s_rank(); }
 pub trait GGLWEInfos: GLWEInfos {
     spec fn s_rank_in(&self) -> u32; spec fn s_rank_out(&self) -> u32; spec fn s_dsize(&self) -> u32; spec fn s_dnum(&self) -> u32;
@@ -31,4 +34,10 @@ impl<D, BE> GGLWEInfos for GGLWEPrepared<D, BE> {
 pub trait GGLWEPreparedToRef<BE> {
     spec fn kref(&self) -> GGLWEPrepared<&[u8], BE>;
     fn to_ref(&self) -> (r: GGLWEPrepared<&[u8], BE>) ensures r == self.kref();
+}
+impl<D: DataRef, BE> GGLWEPreparedToRef<BE> for GGLWEPrepared<D, BE> {
+    open spec fn kref(&self) -> GGLWEPrepared<&[u8], BE> {
+        GGLWEPrepared { data: VmpPMat { data: bref(self.data.data), n: self.data.n, rows: self.data.rows, cols_in: self.data.cols_in, cols_out: self.data.cols_out, size: self.data.size, dep: self.data.dep, _phantom: core::marker::PhantomData }, base2k: self.base2k, dsize: self.dsize }
+    }
+    #[verifier::external_body] fn to_ref(&self) -> (r: GGLWEPrepared<&[u8], BE>) { unimplemented!() }
 }
